@@ -1,6 +1,8 @@
 #!/usr/bin/env python3
 """Run ONE explicit text input through a class of the robust engine (debug helper for C11).
-usage: tools/c11_one.py <class> <text>   |   tools/c11_one.py --scaling"""
+usage: tools/c11_one.py <class> <text>   |   tools/c11_one.py --scaling | --multipath
+The scaling probes are how the two quadratic behaviours recorded as C11 findings were measured
+(base58 decoding of unbounded key text, into_single_descriptors)."""
 import os, subprocess, sys, time
 
 HERE = os.path.dirname(os.path.dirname(os.path.abspath(__file__)))
@@ -20,9 +22,11 @@ def run(cls, text, env=None, line=None):
     return "died", 0, 0, p.stderr[-300:], "", round(dt, 2)
 
 
+K = "c46596162b22616a1bd11ab45456cf21ef0aac0b415bfc6293e5e54dedbde317"
+XP = "xpub661MyMwAqRbcEtUEgdXRTY6dJQG9fRgs7C5QomqETKMYBJVtSGpRqyHSmhWy8snovPd5oWZgQ14zUquxbxu7Z1umuXbN5VDpUL1QobD5xUY"
+
+
 def scaling():
-    K = "c46596162b22616a1bd11ab45456cf21ef0aac0b415bfc6293e5e54dedbde317"
-    XP = "xpub661MyMwAqRbcEtUEgdXRTY6dJQG9fRgs7C5QomqETKMYBJVtSGpRqyHSmhWy8snovPd5oWZgQ14zUquxbxu7Z1umuXbN5VDpUL1QobD5xUY"
     env = dict(os.environ, VERIF_ROBUST_TIMEOUT_MS="120000")
     for n in (5000, 10000, 20000, 40000):
         s = "thresh(1,pk(%s)" % K + (",s:pk(%s)" % K) * n + ")"
@@ -35,17 +39,18 @@ def scaling():
         print("dpk xpub1*n", n, run("str.key.public", "xpub" + "1" * n, env)[:4])
 
 
-if __name__ == "__main__":
-    if sys.argv[1] == "--scaling":
-        scaling()
-    else:
-        print(run(sys.argv[1], sys.argv[2]))
-
-
 def multipath():
-    XP = "xpub661MyMwAqRbcEtUEgdXRTY6dJQG9fRgs7C5QomqETKMYBJVtSGpRqyHSmhWy8snovPd5oWZgQ14zUquxbxu7Z1umuXbN5VDpUL1QobD5xUY"
     for n in (2000, 4000, 8000):
         k = "%s/<%s1>/*" % (XP, "0;" * n)
         print("key", n, run("str.key.public", k)[:4])
         print("desc<String>", n, run("str.desc.string", "sh(pk(%s))" % k)[:4])
         print("wallet_policy", n, run("str.wallet_policy", "sh(pk(%s))" % k)[:4])
+
+
+if __name__ == "__main__":
+    if sys.argv[1] == "--scaling":
+        scaling()
+    elif sys.argv[1] == "--multipath":
+        multipath()
+    else:
+        print(run(sys.argv[1], sys.argv[2]))
